@@ -175,10 +175,13 @@ def post_circuit_sat(net, args, kwargs, result):
         with monitor.suspended():
             from cirbo.sat.cnf import Cnf
             clauses = Cnf.from_circuit(circuit).get_raw()
+        ms = set(model)
+        if 0 in ms or any(-l in ms for l in ms) or any(not isinstance(l, int) for l in model):
+            V('model_not_an_assignment', 'returned model %r is not an assignment (a variable with both polarities / a zero literal)' % (model[:12],))
+            return
         if not satref.check_model(clauses, model):
             V('model_violates_cnf', 'returned model does not satisfy the CNF of the circuit')
             return
-        ms = set(model)
         free = [i for i in range(n) if (i + 1) not in ms and -(i + 1) not in ms]
         for fill in itertools.product((0, 1), repeat=len(free)):
             k = 0
@@ -345,6 +348,10 @@ def gen_case(rng, spec):
     net = netgen.rand_net(rng, shape=shape, max_in=5, min_in=0 if rng.random() < 0.05 else 1, max_g=spec.get('max_g', 10), max_arity=5,
                           n_out=rng.choice([1, 1, 2, 3, 4]), p_wide=0.06,
                           label_style=rng.choice(['plain', 'plain', 'derived', 'derived', 'digits', 'odd']))
+    if net.inputs and rng.random() < 0.06:
+        # every output is a bare input (feed-through pins only): the CNF then has no gate variables at all
+        net = refsem.Net(list(net.inputs), [rng.choice(net.inputs) for _ in range(rng.randint(1, 3))], dict(net.gates))
+        shape += '+feedthrough'
     no = len(net.outputs)
     sels = [None]
     if no:
